@@ -239,6 +239,9 @@ func Replay(t *testing.T, c Check, path string) {
 		}
 		for _, op := range obs.Ops {
 			t.Logf("   op#%d ex=%d %s %q len=%d err=%q fault=%s", op.N, op.Ex, op.Op, op.Key, len(op.Val), op.Err, op.Fault)
+			if op.Op == "set" && len(op.Val) > 0 && op.Val[0] == '[' {
+				t.Logf("        index = %s", op.Val)
+			}
 		}
 		if obs.Leak != "" || obs.Fatal != "" {
 			t.Logf("leak=%q fatal=%q", obs.Leak, obs.Fatal)
